@@ -64,6 +64,7 @@ func (p *WorkerPool) Start() {
 	if !atomic.CompareAndSwapInt32(&p.running, 0, 1) {
 		return // Already running
 	}
+	vhook("wp.start", "n", p.maxWorkers)
 
 	// Launch worker goroutines
 	p.wg.Add(p.maxWorkers)
@@ -82,23 +83,29 @@ func (p *WorkerPool) worker(id int) {
 		select {
 		case <-p.ctx.Done():
 			// Worker pool is shutting down
+			vhook("wp.exit", "w", id, "why", "ctx")
 			return
 		case task, ok := <-p.taskQueue:
 			if !ok {
 				// Task queue has been closed
+				vhook("wp.exit", "w", id, "why", "closed")
 				return
 			}
+			vhook("wp.take", "w", id, "rc", task.ResultChan)
 
 			// Execute the task
 			atomic.AddInt32(&p.activeWorkers, 1)
 			result := task.Execute()
 			atomic.AddInt32(&p.activeWorkers, -1)
+			vhook("wp.done", "w", id)
 
 			// R14/R33: Non-blocking send to avoid deadlock if receiver is gone
 			if task.ResultChan != nil {
 				select {
 				case task.ResultChan <- result:
+					vhook("wp.deliver", "w", id, "sent", true)
 				default:
+					vhook("wp.deliver", "w", id, "sent", false)
 				}
 			}
 
@@ -123,8 +130,10 @@ func (p *WorkerPool) Submit(execute func() interface{}) chan interface{} {
 	defer p.closeMu.RUnlock()
 
 	if atomic.LoadInt32(&p.running) == 0 {
+		vhook("wp.rej", "why", "stopped")
 		return nil // Not running
 	}
+	vhook("wp.chk")
 
 	// Create a channel for the result
 	resultChan := make(chan interface{}, 1)
@@ -142,10 +151,12 @@ func (p *WorkerPool) Submit(execute func() interface{}) chan interface{} {
 	select {
 	case p.taskQueue <- task:
 		// Task submitted successfully
+		vhook("wp.enq", "rc", resultChan)
 		return resultChan
 	case <-timer.C:
 		// Task queue is full, close the result channel
 		close(resultChan)
+		vhook("wp.rej", "why", "timeout")
 		return nil
 	}
 }
@@ -167,11 +178,14 @@ func (p *WorkerPool) SubmitWait(execute func() interface{}) (interface{}, bool) 
 func (p *WorkerPool) Stop() {
 	// Use atomic to ensure we only stop once
 	if !atomic.CompareAndSwapInt32(&p.running, 1, 0) {
+		vhook("wp.stop.noop")
 		return // Not running
 	}
+	vhook("wp.stop.cas")
 
 	// Signal all workers to stop
 	p.cancel()
+	vhook("wp.stop.cancelled")
 
 	// Close the task queue under closeMu so that no Submit is mid-send.
 	p.closeMu.Lock()
@@ -183,10 +197,12 @@ func (p *WorkerPool) Stop() {
 		}()
 		close(p.taskQueue)
 	}()
+	vhook("wp.stop.closed")
 	p.closeMu.Unlock()
 
 	// Wait for all workers to finish
 	p.wg.Wait()
+	vhook("wp.stop.waited")
 
 	p.logger.logger.Printf("Worker pool stopped")
 }
@@ -215,11 +231,13 @@ func (p *WorkerPool) Resize(maxWorkers int) {
 
 	// Only resize if the worker count changes
 	if p.maxWorkers == maxWorkers {
+		vhook("wp.rs.same")
 		return
 	}
 
 	// Check if the pool is running
 	wasRunning := atomic.LoadInt32(&p.running) == 1
+	vhook("wp.rs.begin", "was", wasRunning, "old", p.maxWorkers, "new", maxWorkers)
 
 	// Save reference to old queue before stopping
 	oldQueue := p.taskQueue
@@ -243,8 +261,10 @@ func (p *WorkerPool) Resize(maxWorkers int) {
 		}
 		for task := range oldQueue {
 			pendingTasks = append(pendingTasks, task)
+			vhook("wp.rs.drain", "rc", task.ResultChan)
 		}
 	}
+	vhook("wp.rs.drained", "n", len(pendingTasks))
 
 	// Update the max workers
 	p.maxWorkers = maxWorkers
@@ -254,20 +274,24 @@ func (p *WorkerPool) Resize(maxWorkers int) {
 	p.ctx, p.cancel = context.WithCancel(context.Background())
 	// Reset active workers count
 	atomic.StoreInt32(&p.activeWorkers, 0)
+	vhook("wp.rs.swapped", "n", maxWorkers)
 
 	// Restart the pool if it was running
 	if wasRunning {
 		p.Start()
+		vhook("wp.rs.started")
 
 		// Re-enqueue pending tasks from the old queue
 		for _, task := range pendingTasks {
 			select {
 			case p.taskQueue <- task:
+				vhook("wp.rs.requeue", "rc", task.ResultChan)
 			default:
 				// Queue full, notify caller of failure
 				if task.ResultChan != nil {
 					task.ResultChan <- nil
 				}
+				vhook("wp.rs.fail", "rc", task.ResultChan, "why", "full")
 			}
 		}
 	} else {
@@ -276,6 +300,8 @@ func (p *WorkerPool) Resize(maxWorkers int) {
 			if task.ResultChan != nil {
 				task.ResultChan <- nil
 			}
+			vhook("wp.rs.fail", "rc", task.ResultChan, "why", "stopped")
 		}
 	}
+	vhook("wp.rs.done")
 }
